@@ -165,6 +165,8 @@ def tobool(v):
         return v != 0
     if isinstance(v, FStr):
         return True
+    if type(v).__name__ in ('Fn', 'Bound') or (callable(v) and getattr(v, '_pyvc_native', False)):
+        return True                      # function objects are truthy
     raise Unsupported(f'truth of {type(v).__name__}')
 
 
